@@ -34,6 +34,7 @@ pub struct World {
     pub fds: u8,         // 0 none, 1 fds 3..19 open on /dev/null, 2 fds 3..99 open
     pub script_mode: u8, // 0 0644 now, 1 0400, 2 0755, 3 0644 with mtime 1970, 4 0644 with mtime 2100
     pub uid: u8,         // 0 as the simulator (root), 1 nobody (65534:65534)
+    pub rlimit: u8,      // resource limits far above what any explored script needs: 0 none, 1 RLIMIT_AS 192 MiB, 2 RLIMIT_AS 1 GiB, 3 RLIMIT_CPU 60 s, 4 RLIMIT_NOFILE 260, 5 RLIMIT_FSIZE 4 MiB, 6 RLIMIT_DATA 128 MiB
     // directed dimensions: environment variables / relative files the program was seen asking for
     pub extra_env: Vec<(String, String)>,
     pub extra_files: Vec<(String, String)>,
@@ -42,7 +43,7 @@ pub struct World {
 pub const DIMS: &[&str] = &[
     "rand", "heap_pad", "env_pad", "stack", "malloc_tun", "cwd_name", "rel", "file_name", "spelling", "argv0",
     "env_kind", "locale", "rust_backtrace", "stdin", "stdout", "stderr", "merged", "decoys", "clock", "pid", "extra_env", "extra_files",
-    "env_bytes", "sig", "umask", "fds", "script_mode", "uid",
+    "env_bytes", "sig", "umask", "fds", "script_mode", "uid", "rlimit",
 ];
 
 impl World {
@@ -75,6 +76,7 @@ impl World {
             fds: 0,
             script_mode: 0,
             uid: 0,
+            rlimit: 0,
             extra_env: vec![],
             extra_files: vec![],
         }
@@ -103,6 +105,7 @@ impl World {
             "fds" => self.fds = 1 + rng.below(2) as u8,
             "script_mode" => self.script_mode = 1 + rng.below(4) as u8,
             "uid" => self.uid = 1,
+            "rlimit" => self.rlimit = 1 + rng.below(6) as u8,
             "stdout" => self.stdout = [1, 2, 3, 4, 5, 8][rng.usize_below(6)],
             "stderr" => self.stderr = [1, 2, 3, 4, 5, 8][rng.usize_below(6)],
             "merged" => self.merged = true,
@@ -148,6 +151,7 @@ impl World {
             "fds" => self.fds = 0,
             "script_mode" => self.script_mode = 0,
             "uid" => self.uid = 0,
+            "rlimit" => self.rlimit = 0,
             "extra_env" => self.extra_env = vec![],
             "extra_files" => self.extra_files = vec![],
             _ => {}
@@ -182,6 +186,7 @@ impl World {
             "fds" => self.fds.to_string(),
             "script_mode" => self.script_mode.to_string(),
             "uid" => self.uid.to_string(),
+            "rlimit" => self.rlimit.to_string(),
             "extra_env" => self.extra_env.len().min(3).to_string(),
             "extra_files" => self.extra_files.len().min(3).to_string(),
             _ => String::new(),
@@ -196,7 +201,7 @@ impl World {
             "env_pad" | "rel" | "argv0" | "env_kind" | "clock" | "fds" => 2,
             "cwd_name" | "locale" | "stdin" | "script_mode" => 4,
             "stdout" | "stderr" => 6,
-            "env_bytes" => 6,
+            "env_bytes" | "rlimit" => 6,
             "spelling" => 7,
             _ => 0,
         }
@@ -253,7 +258,7 @@ impl World {
             "stdin": self.stdin, "stdout": self.stdout, "stderr": self.stderr,
             "merged": self.merged, "decoys": self.decoys,
             "clock": self.clock, "pid": self.pid, "clock_step_ms": self.clock_step_ms,
-            "env_bytes": self.env_bytes, "sig": self.sig, "umask": self.umask, "fds": self.fds, "script_mode": self.script_mode, "uid": self.uid,
+            "env_bytes": self.env_bytes, "sig": self.sig, "umask": self.umask, "fds": self.fds, "script_mode": self.script_mode, "uid": self.uid, "rlimit": self.rlimit,
             "extra_env": self.extra_env.iter().map(|(k, v)| json!([k, v])).collect::<Vec<_>>(),
             "extra_files": self.extra_files.iter().map(|(k, v)| json!([k, v])).collect::<Vec<_>>(),
         })
@@ -294,6 +299,7 @@ impl World {
         w.fds = u("fds").unwrap_or(0) as u8;
         w.script_mode = u("script_mode").unwrap_or(0) as u8;
         w.uid = u("uid").unwrap_or(0) as u8;
+        w.rlimit = u("rlimit").unwrap_or(0) as u8;
         let pairs = |k: &str| -> Vec<(String, String)> {
             j.get(k).and_then(J::as_array).map(|a| a.iter().filter_map(|x| Some((x.get(0)?.as_str()?.to_string(), x.get(1)?.as_str()?.to_string()))).collect()).unwrap_or_default()
         };
